@@ -129,7 +129,8 @@ def build_sessions(gens, exact=True):
             if s["tid"] % 5 == 2:
                 s["descs"] = [odd_names(d["g"])]
         # the batch runner on the caller's own dictionary, between two snapshots (C10)
-        if s["tid"] % 4 == 1 and d["fam"] not in ("perm", "edit") and d.get("solvemode", d.get("stopping")):
+        if (s["tid"] % 4 == 1 or d["fam"] in ("degen", "nonabs")) and d["fam"] not in ("perm", "edit") \
+                and d.get("solvemode", d.get("stopping")):
             s["script"] = s["script"] + [{"op": "batch", "d": 1}, {"op": "snap", "d": 1}]
         # other legal Python number types; a DEBUG log level (small games only: it logs every state of every sweep)
         s["numtypes"] = s["tid"] % 6 == 4
